@@ -289,7 +289,36 @@ def _splice(f, bi, g):
 FN_CALL_KEYS = ("core::ops::function::Fn::call", "core::ops::function::FnMut::call_mut")
 
 
-def inline_closure_calls(fns):
+def unsafe_called_closures(fns):
+    """closures with unsafe operations that their parent calls directly (Fn::call / FnMut::call_mut / FnOnce::call_once) and
+    hands to nothing else: {closure path}"""
+    by_path = {f["path"]: f for f in fns}
+    called, elsewhere = set(), set()
+    for f in fns:
+        for b in f["blocks"]:
+            t = b["term"]
+            if t["k"] != "call":
+                continue
+            ty = (t["func"].get("ty") or {}) if t["func"].get("k") == "const" else {}
+            targs = ty.get("args") or []
+            if ty.get("path") in FN_CALL_KEYS and targs and targs[0].get("k") == "closure":
+                called.add(targs[0].get("path"))
+                continue
+
+            def mentions(x):
+                if isinstance(x, dict):
+                    if x.get("k") == "closure" and x.get("path"):
+                        elsewhere.add(x["path"])
+                    for v in x.values():
+                        mentions(v)
+                elif isinstance(x, list):
+                    for v in x:
+                        mentions(v)
+            mentions(targs)
+    return {c for c in called - elsewhere if c in by_path and _has_unsafe_ops(by_path[c])}
+
+
+def inline_closure_calls(fns, allow_unsafe=()):
     """`let is_set = |i| ..; is_set(a) && is_set(b)`: a direct call of a local closure (Fn::call / FnMut::call_mut on a
     reference to the closure value) is replaced by a copy of the closure body, like a private helper.  The closure's
     environment parameter receives the reference the call passes, its other parameters the components of the argument
@@ -318,7 +347,7 @@ def inline_closure_calls(fns):
                 if not targs or targs[0].get("k") != "closure":
                     continue
                 g = by_path.get(targs[0].get("path"))
-                if g is None or g is f or len(g["blocks"]) > MAX_BLOCKS or _has_unsafe_ops(g):
+                if g is None or g is f or len(g["blocks"]) > MAX_BLOCKS or (_has_unsafe_ops(g) and g["path"] not in allow_unsafe):
                     continue
                 a0, a1 = t["args"]
                 if a0.get("k") not in ("copy", "move") or a0["place"]["proj"]:
